@@ -685,6 +685,11 @@ class RTDCBase(abc.ABC):
         x = self[xax][self.filter.all]
         y = self[yax][self.filter.all]
 
+        if len(x) == 0:
+            # nothing selected: empty grid and empty density
+            empty = np.zeros((0, 0), dtype=float)
+            return empty, empty.copy(), empty.copy()
+
         xacc_sc, xs = RTDCBase.get_kde_spacing(
             a=x,
             feat=xax,
